@@ -21,7 +21,7 @@
    running runner keeps them sorted by next activation time); ticks run the jobs of those
    entries.  The predicate is P_start / P_op_start (C11_StartSpec): P resp. P_op, and one tick
    delivers every crontab with a registered id once and nothing else. *)
-From Verif Require Import Common C11_Model C11_Spec C11_Hm C11_HmSpec C11_StartSpec.
+From Verif Require Import Common C11_Model C11_Spec C11_Hm C11_HmSpec C11_StartSpec C11_QModel C11_QSpec.
 
 (* two case classes.
    CCtl: real ScheduleBindingsControllers sharing one real scheduleManager; a firing is handed
@@ -43,9 +43,15 @@ From Verif Require Import Common C11_Model C11_Spec C11_Hm C11_HmSpec C11_StartS
    hooks' own controllers pass them).  The input's hooks are the configurations as written:
    the model loads them itself ([load_input], [run_op]); the predicate is evaluated on the
    loaded case. *)
+(* CQ (queues class): everything of COp, and the operator's REAL TaskQueueSet - "main" made by
+     bootstrapMainQueue, one queue per queue name of the loaded schedule bindings, none of them
+     started - and its REAL ManagerEventsHandler.Start() loop: every string handled is received by
+     that loop, which calls the schedule event handler and moves the tasks into the queues; the
+     CONTENTS of every queue are observed after every operation ([q_queues], by queue number). *)
 Inductive case :=
 | CCtl (c : input * list obs)
-| COp (c : input * (list (list N) * list hobs)).
+| COp (c : input * (list (list N) * list hobs))
+| CQ (c : input * (list (list N) * list qobs)).
 
 (* short constructors for the generated files *)
 Definition Bd := mkB.
@@ -96,16 +102,52 @@ Definition hobs_eqb (a b : hobs) : bool :=
   && (negb (Nat.leb (length (o_recv (h_obs a))) 1)
       || list_eqb N.eqb (map st_hook (h_tasks a)) (map st_hook (h_tasks b))).
 
-Definition model_obs (c : case) : list obs + (list (list N) * list hobs) :=
+(* queue contents.  Within one firing the tasks of one hook come in the order of a Go map
+   iteration: the implementation's queue is judged segment by segment - what an operation
+   appended (the contents before must still be there, unchanged, in front) is cut into the
+   segments the model says the handled strings made ([segs], per string; of each the tasks for
+   this queue), each segment a permutation of the model's with the hooks in the model's order -
+   and as a whole against the model's queue (same multiset). *)
+Fixpoint segs_match (d : list stask) (es : list (list stask)) : bool :=
+  match es with
+  | [] => is_nil d
+  | e :: r =>
+      let x := firstn (length e) d in
+      is_tperm x e && list_eqb N.eqb (map st_hook x) (map st_hook e) && segs_match (skipn (length e) d) r
+  end.
+Definition queue_agrees (segs : list (list stask)) (mq : queues) (p n : N * list stask) : bool :=
+  N.eqb (fst p) (fst n)
+  && match q_lookup (fst n) mq with Some ts => is_tperm (snd n) ts | None => false end
+  && list_eqb stask_eqb (firstn (length (snd p)) (snd n)) (snd p)
+  && segs_match (skipn (length (snd p)) (snd n)) (map (in_queue (fst n)) segs).
+Fixpoint queues_agree (ms : list qobs) (sg : list (list (list stask))) (pq : queues) (os : list qobs) : bool :=
+  match ms, sg, os with
+  | [], [], [] => true
+  | m :: ms', s :: sg', o :: os' =>
+      Nat.eqb (length (q_queues m)) (length (q_queues o))
+      && forallb2 (queue_agrees s (q_queues m)) pq (q_queues o)
+      && queues_agree ms' sg' (q_queues o) os'
+  | _, _, _ => false
+  end.
+(* the queues that exist, all empty, by queue number *)
+Definition initial_queues (i : input) : queues :=
+  map (fun q => (q, [])) (sort_ns (map fst (q_create (i_hooks i)))).
+
+Definition model_obs (c : case) : list obs + ((list (list N) * list hobs) + (list (list N) * list qobs)) :=
   match c with
   | CCtl c => inl (run_model (fst c))
-  | COp c => inr (loaded_ids (fst c), run_op (fst c))
+  | COp c => inr (inl (loaded_ids (fst c), run_op (fst c)))
+  | CQ c => inr (inr (loaded_ids (fst c), run_qop (fst c)))
   end.
 Definition agrees (c : case) : bool :=
   match c with
   | CCtl c => list_eqb obs_eqb (run_model (fst c)) (snd c)
   | COp c => list_eqb (list_eqb N.eqb) (loaded_ids (fst c)) (fst (snd c))
              && list_eqb hobs_eqb (run_op (fst c)) (snd (snd c))
+  | CQ c => list_eqb (list_eqb N.eqb) (loaded_ids (fst c)) (fst (snd c))
+            && list_eqb hobs_eqb (run_op (fst c)) (map q_hobs (snd (snd c)))
+            && queues_agree (run_qop (fst c)) (run_q_segs (load_input (fst c)))
+                            (initial_queues (load_input (fst c))) (snd (snd c))
   end.
 
 Definition mismatches (cs : list case) : list N := indices_where (fun c => negb (agrees c)) cs.
@@ -113,4 +155,5 @@ Definition spec_violations (cs : list case) : list N :=
   indices_where (fun c => negb (match c with
                                 | CCtl c => P_start (fst c) (snd c)
                                 | COp c => P_op_start (load_input (fst c)) (snd (snd c))
+                                | CQ c => P_q (load_input (fst c)) (snd (snd c))
                                 end)) cs.
